@@ -30,7 +30,7 @@ def run_r1(ctx, rule):
     facts = ctx.facts
     sites = []
     for f in facts.fns.values():
-        if f.crate == "ext":
+        if f.crate in ("ext", "promoted"):
             continue
         for bb, t in f.calls():
             if is_read_call(t):
